@@ -70,6 +70,8 @@ def transforms(sib=False):
                 hs.append(torch.stack([torch.stack([p * (o + 1), p.flip(-1) * (o - 2)], -1) for o in range(6)], 2))
             return [DTCWTInverse(biort=b, qshift=q)((yl2, hs))]
         T['idtcwt/%s' % b] = (inv, 4)
+    if not sib:
+        T['dtcwt/zero'] = (lambda x: flat(DTCWTForward(J=2, mode='zero')(x)), 4)
     # other placements of the orientation and real/imaginary axes that keep batch and channel in front (negative aliases included)
     if not sib:
         for (o, ri) in ((-4, -1), (3, 2), (-1, -4), (4, -3)):
@@ -82,7 +84,7 @@ def oracle_cases(tier, rng):
     for nm in names:
         for chk in ('zero', 'super', 'slice', 'slice_sparse', 'slice_primed'):
             if chk == 'slice_primed' and (nm.split('/')[0] in ('dtcwt', 'idtcwt') and 'near_sym_a' not in nm): continue
-            if 'layout' in nm and chk in ('zero', 'super', 'slice_primed'): continue
+            if ('layout' in nm or nm == 'dtcwt/zero') and chk in ('zero', 'super', 'slice_primed'): continue
             for rep in range(2 if tier == 'quick' else 5):
                 H, W = [(16, 24), (13, 18), (20, 16), (32, 32), (9, 28)][rep % 5]
                 if nm.startswith(('dtcwt', 'idtcwt', 'swt')):
@@ -90,8 +92,13 @@ def oracle_cases(tier, rng):
                 yield dict(transform=nm, check=chk, H=H, W=W, nb=int(rng.integers(1, 4)), C=int(rng.integers(1, 4)), seed=int(rng.integers(1 << 30)))
 
 
+    # many channels: a path chosen by the channel count must still act slice by slice (three slices are compared)
+    for nm in ('dwt2d/zero', 'dwt1d/symmetric', 'swt/periodization', 'dtcwt/near_sym_a', 'dtcwt/zero', 'idwt2d/periodization'):
+        yield dict(transform=nm, check='slice', H=16, W=16, nb=1, C=70, seed=int(rng.integers(1 << 30)))
+
+
 def strat_key(cfg):
-    return cfg['transform'] + '/' + cfg['check']
+    return cfg['transform'] + '/' + cfg['check'] + ('/C%d' % cfg['C'] if cfg['C'] > 8 else '')
 
 
 def oracle_run(cfg):
@@ -126,8 +133,9 @@ def oracle_run(cfg):
             transforms(sib=True)[cfg['transform']][0](x)
             f, nd = transforms()[cfg['transform']]
         full = f(x)
+        chans = range(shp[1]) if shp[1] <= 8 else sorted({0, shp[1] // 2, shp[1] - 1})
         for n in range(shp[0]):
-            for c in range(shp[1]):
+            for c in chans:
                 part = f(x[n:n + 1, c:c + 1].contiguous())
                 for u, v in zip(full, part):
                     if u.dim() < 2: continue
